@@ -6,7 +6,7 @@ git -C /repo diff --quiet || { echo "seeded-run: /repo working tree not clean"; 
 git -C /repo apply "$P" || { echo "seeded-run: patch does not apply"; exit 2; }
 trap 'git -C /repo checkout -q -- .' EXIT INT TERM
 for c in "$@"; do
-  out=$(/verif/bin/check $c --tier "${TIER:-quick}" ${SCALE:+--scale $SCALE} 2>&1); ec=$?
+  out=$(VERIF_OUT="${VERIF_OUT:-/var/tmp/seeded-run-out}" /verif/bin/check $c --tier "${TIER:-quick}" ${SCALE:+--scale $SCALE} 2>&1); ec=$?
   echo "== $ID vs $c: exit=$ec"
   echo "$out" | grep -E "^(C[0-9]+/|VIOLATION|KNOWN|NONDET|check )" | head -8
 done
